@@ -36,12 +36,12 @@ theorem pin_mibdumpScript : mibdumpScript = [
 theorem pin_mibcopyScript : mibcopyScript = [
     "call:getopt.getopt", "except:getopt.GetoptError", "call:sys.exit(EX_USAGE)", "loop", "if",
     "call:sys.exit(EX_OK)", "if", "call:sys.exit(EX_OK)", "if", "if", "if", "call:opt[1].split", "if",
-    "call:mibSources.append", "if", "if", "if", "if", "call:sys.exit(EX_USAGE)", "call:inputMibs.pop", "if",
-    "call:os.path.exists", "call:os.path.isdir", "call:sys.exit(EX_USAGE)", "call:os.makedirs", "except:OSError",
-    "call:JsonCodeGen", "call:SmiV1CompatParser", "call:CallbackWriter", "call:MibCompiler",
-    "call:mibCompiler.addSources", "call:FileReader", "call:getReadersFromUrls", "call:mibCompiler.compile",
-    "except:error.PySmiError", "call:sys.exc_info", "call:sys.exit(EX_SOFTWARE)", "loop", "if",
-    "call:datetime.strptime", "except:Exception", "call:datetime.fromtimestamp", "return:value",
+    "call:mibSources.append", "if", "if", "if", "if", "call:sys.exit(EX_USAGE)", "call:os.path.abspath",
+    "call:inputMibs.pop", "if", "call:os.path.exists", "call:os.path.isdir", "call:sys.exit(EX_USAGE)",
+    "call:os.makedirs", "except:OSError", "call:JsonCodeGen", "call:SmiV1CompatParser", "call:CallbackWriter",
+    "call:MibCompiler", "call:mibCompiler.addSources", "call:FileReader", "call:getReadersFromUrls",
+    "call:mibCompiler.compile", "except:error.PySmiError", "call:sys.exc_info", "call:sys.exit(EX_SOFTWARE)", "loop",
+    "if", "call:datetime.strptime", "except:Exception", "call:datetime.fromtimestamp", "return:value",
     "raise:error.PySmiError", "call:error.PySmiError", "if", "return:value", "return:value", "loop", "if", "if",
     "call:os.path.isfile", "call:os.path.abspath", "call:os.path.dirname", "call:os.path.basename",
     "call:os.path.abspath", "call:os.walk", "loop", "call:getMibRevision", "except:error.PySmiError", "if", "if",
